@@ -544,8 +544,10 @@ impl Matcher for KittyKeyboardMatcher {
         let name = match fields.next() {
             Some(codes) => {
                 // TODO: decode alternative keys
-                let mut codes = numbers_decode(codes, b':');
-                keyboard_decode_key(codes.next().unwrap_or(1))?
+                let code = codes.split(|c| *c == b':').next().unwrap_or(&[]);
+                // missing key code defaults to 1, invalid one is an error
+                let code = if code.is_empty() { 1 } else { number_decode(code)? };
+                keyboard_decode_key(code)?
             }
             None => return None,
         };
@@ -553,12 +555,16 @@ impl Matcher for KittyKeyboardMatcher {
         // decode modifiers
         let mode = match fields.next() {
             Some(modes) => {
-                let mut modes = numbers_decode(modes, b':');
-                let mode = match modes.next() {
-                    Some(mode) if mode > 1 => KeyMod::from_bits((mode - 1) as u32),
-                    _ => KeyMod::EMPTY,
+                let mut modes = modes.split(|c| *c == b':').map(number_decode);
+                let mode = match modes.next().flatten() {
+                    Some(mode) if mode > 1 => KeyMod::from_bits(u32::try_from(mode - 1).ok()?),
+                    Some(_) => KeyMod::EMPTY,
+                    None => return None,
                 };
-                let event_type = modes.next().unwrap_or(0);
+                let event_type = match modes.next() {
+                    Some(event_type) => event_type?,
+                    None => 0,
+                };
                 // TODO: decode press/release/repeat
                 if event_type != 0 {
                     return None;
